@@ -504,11 +504,29 @@ func (fr *Frame) callStatic(instr ssa.Instruction, callee *ssa.Function, free []
 			sub.root = fr
 		}
 		sub.path = fr.path + fmt.Sprintf("/%p", instr)
+		sub.posPath = fr.posPath + fmt.Sprintf("/%d", int(instr.Pos()))
+		// how the caller's text names what the helper's parameters stand for (loop descriptors of an extracted loop)
+		sub.argSrc = map[string]string{}
+		if ci, ok := instr.(ssa.CallInstruction); ok {
+			for i, prm := range callee.Params {
+				if i < len(ci.Common().Args) {
+					n := fr.srcName(ci.Common().Args[i])
+					if fr.argSrc != nil {
+						n = substIdents(n, fr.argSrc)
+					}
+					sub.argSrc[prm.Name()] = n
+				}
+			}
+		}
 		savedPos := c.curPos
 		rv, out, Rret := c.execFunc(sub, args, st.clone(), R)
 		c.curPos = savedPos
-		// the callee's exit state replaces the caller's state (calls are not branching points)
-		_ = Rret
+		// the callee's exit state replaces the caller's state (calls are not branching points); the code after the
+		// call runs only if the callee returned (partial correctness): what was established on the callee's paths to
+		// its return - e.g. the invariant of a loop it contains, at the loop's exit - is available afterwards
+		if Rret != "false" && Rret != "" {
+			c.assume(R, Rret)
+		}
 		*st = *out
 		if rv == nil && resT.Len() > 0 {
 			// callee never returns normally
@@ -2117,15 +2135,53 @@ func (fr *Frame) loopEnv(li *loopInfo, st *State, phiVals map[*ssa.Phi]Val, R st
 	if p := pkgOf(fr.fn); p != nil {
 		pkg = p
 	}
+	oldSt := fr.entrySt
+	if fr.root != nil {
+		// a loop of a contract-less helper expanded in place, annotated by the contract of the function that calls it:
+		// names the helper does not define are those of that function, old() is that function's entry state
+		rv := map[string]Val{}
+		for k, v := range fr.root.envVars {
+			rv[k] = v
+		}
+		fr.root.bindLocals(rv, st, nil)
+		for k, v := range rv {
+			if _, ok := vars[k]; !ok {
+				vars[k] = v
+			}
+		}
+		oldSt = fr.root.entrySt
+		if p := pkgOf(fr.root.fn); p != nil {
+			pkg = p
+		}
+	}
 	bf := li.preSt
 	if bf == nil {
 		bf = st // establishing the invariant: the loop is being entered in this very state
 	}
-	return &Env{c: c, st: st, old: fr.entrySt, vars: vars, pkg: pkg, guard: R, before: bf}
+	return &Env{c: c, st: st, old: oldSt, vars: vars, pkg: pkg, guard: R, before: bf}
 }
 
 // bindLocals makes source-level local variable names available to loop invariants.
 func (fr *Frame) bindLocals(vars map[string]Val, st *State, li *loopInfo) {
+	fr.bindLocals0(vars, st, li)
+	// a recorded local that was renamed: bind the old name to the one current name it can stand for here
+	for old, cands := range fr.localAliases() {
+		if _, ok := vars[old]; ok {
+			continue
+		}
+		var hit []string
+		for _, cn := range cands {
+			if _, ok := vars[cn]; ok {
+				hit = append(hit, cn)
+			}
+		}
+		if len(hit) == 1 {
+			vars[old] = vars[hit[0]]
+		}
+	}
+}
+
+func (fr *Frame) bindLocals0(vars map[string]Val, st *State, li *loopInfo) {
 	c := fr.c
 	bound := map[string]*ssa.BasicBlock{} // block of the debug reference a name is currently bound from
 	at := fr.curBlock
